@@ -4,6 +4,8 @@ import RichModel.Lemmas.FramesRect
 import RichModel.Lemmas.FramesBars
 import RichModel.Lemmas.FramesTreeRect
 import RichModel.Lemmas.FramesColumns
+import RichModel.Lemmas.FramesStyled
+import RichModel.Lemmas.FramesColumnsCells
 import RichModel.Gen.CellWidths
 import RichModel.Gen.Boxes
 /-!
@@ -331,6 +333,164 @@ theorem old_panel_fit_has_no_body_row :
 example : splitLines (alignConsole cw { consoleWidth := 10 } { zeroWidthChild := false } { align := .center } blankChild 10)
     = [[seg (rep 5 ' '), seg (rep 5 ' ')]] := by decide
 
+/-! ## Styles of the cells a frame adds (styled layer, `Model/FramesStyled.lean`) -/
+
+/-- **padding_style.**  For every child, style `s`, padding and width with room for the padding: the lines of
+`Padding(child, pad, style=s)` are blank lines made of ONE segment of style `s`, and body lines made of the
+left pad (style `s`), the child's line, the right pad (style `s`); the child's line is what
+`render_lines(style=s)` gives — every rendered segment restyled to `s + its own style` — followed by blanks
+that all carry `s`; every line is exactly `width` cells. -/
+theorem padding_style (A : SOps σ) (sv : SVariant) (s : σ) (p : PadDims) (expand : Bool) (c : Child σ) (w : Int)
+    (hfit : (p.left : Int) + p.right ≤ paddingWidth sv.base p expand c w) :
+    splitLines (paddingConsoleS cw A sv s p expand c w) = paddingLinesS cw A sv s p expand c w ∧
+    (∀ l ∈ paddingLinesS cw A sv s p expand c w, lineLength cw l = (paddingWidth sv.base p expand c w).toNat) ∧
+    (∀ g ∈ (blankLineS (some s) (paddingWidth sv.base p expand c w) ++ padLeftSegsS s p ++ padRightSegsS s p : List (Segment σ)),
+      g.style = some s ∧ ∀ ch ∈ g.text, ch = ' ') ∧
+    (∀ l ∈ c.linesAtS cw A sv (paddingChildWidth sv.base p expand c w) (some s) false,
+      stream (adjustLineLength cw l (paddingChildWidth sv.base p expand c w).toNat (some s)) =
+        stream l ++ List.replicate ((paddingChildWidth sv.base p expand c w).toNat - lineLength cw l) (' ', some s, false)) ∧
+    (∀ k, ∀ g ∈ Frames.applyStyle A (some s) (c.renderAt k), ∃ g0 ∈ c.renderAt k, g.text = g0.text ∧ g.control = g0.control ∧
+      g.style = (if g0.control then none else some (A.addO s g0.style))) := by
+  refine ⟨paddingConsoleS_lines cw cw_space cw_le_two A sv s p expand c w,
+    paddingLinesS_width cw cw_space cw_le_two A sv s p expand c w hfit, ?_, ?_, fun k g hg => applyStyle_mem A s _ g hg⟩
+  · intro g hg
+    have hrep : ∀ n : Int, ∀ ch ∈ rep n ' ', ch = ' ' := by
+      intro n ch hch; simp only [rep, List.mem_replicate] at hch; exact hch.2
+    simp only [List.mem_append] at hg
+    rcases hg with (hg | hg) | hg
+    · unfold blankLineS at hg; split at hg
+      · simp at hg
+      · simp only [List.mem_singleton] at hg; subst hg; exact ⟨rfl, hrep _⟩
+    · unfold padLeftSegsS at hg; split at hg
+      · simp only [List.mem_singleton] at hg; subst hg; exact ⟨rfl, hrep _⟩
+      · simp at hg
+    · unfold padRightSegsS at hg; split at hg
+      · simp only [List.mem_singleton] at hg; subst hg; exact ⟨rfl, hrep _⟩
+      · simp at hg
+  · intro l hl
+    exact adjust_pad_stream cw l _ (some s) (renderLinesS_le cw cw_space cw_le_two A sv _ _ _ false l hl)
+
+/-- **panel_border_style.**  For every child, box, styles `s` (panel) and `b` (border), title oracle, padding and
+width: the top border, the two side cells of every body row and the bottom border are segments of style
+`s + b`; between the side cells stands, unchanged, what `render_lines(style=s)` gives for the (padded) child. -/
+theorem panel_border_style (A : SOps σ) (env : Env) (sv : SVariant) (o : PanelOpts) (s b : σ) (title : Option (TitleO σ))
+    (c : Child σ) (w : Int) (p : PadDims) (box : Box) (out : List (Segment σ)) (hp : unpackPad o.padding = .ok p)
+    (hb : boxAt (substituteBox env (o.safeBox.getD env.safeBox) o.box) = some box)
+    (ht : ∀ t, title = some t → t.NlFreeO)
+    (h : panelConsoleS cw A env sv o s b title c w = .ok (some out)) :
+    let cwid := panelChildWidthS sv o title (panelInnerS cw A sv p c) w
+    ∃ top, panelTopLineS A env sv s b title box cwid = some top ∧
+      splitLines out = [top]
+        ++ ((panelInnerS cw A sv p c).linesAtS cw A sv cwid (some s) true).map
+            (fun l => [segS (some (A.add s b)) [box.midLeft]] ++ l ++ [segS (some (A.add s b)) [box.midRight]])
+        ++ [[segS (some (A.add s b)) (boxBottom box cwid)]] ∧
+      (∀ l ∈ (panelInnerS cw A sv p c).linesAtS cw A sv cwid (some s) true, lineLength cw l = cwid.toNat) ∧
+      (title = none → top = [segS (some (A.add s b)) (boxTop box cwid)]) :=by
+  dsimp only
+  obtain ⟨hnn, _⟩ := boxAt_ok _ box hb
+  obtain ⟨top, htop, hlines⟩ := panelConsoleS_lines cw cw_space cw_le_two A env sv o s b title c w p box out hp hb hnn ht h
+  refine ⟨top, htop, hlines, renderLinesS_exact cw cw_space cw_le_two A sv _ _ _, ?_⟩
+  intro hnone
+  subst hnone
+  simp only [panelTopLineS, Option.some.injEq] at htop
+  exact htop.symm
+
+/-- **panel_content_style** (repaired `render_lines`): the blanks that complete a short child line inside a
+panel carry the panel style `s`, like every other content cell. -/
+theorem panel_content_pad_style (A : SOps σ) (z t r : Bool) (bv : Variant) (inner : Child σ) (s : σ) (cwid : Int) :
+    inner.linesAtS cw A { base := bv, linesPadUnstyled := false, titleAtConsoleWidth := t, ruleNoTitleEnd := r } cwid (some s) true =
+      (splitLinesTagged (Frames.applyStyle A (some s) (inner.renderAt cwid))).map (fun q => adjustLineLength cw q.1 cwid.toNat (some s) true) := by
+  have := z
+  unfold Child.linesAtS
+  rw [renderLinesS_pad_style]
+  rfl
+
+/-- a child rendering the one line `hi` (style 7) -/
+def hiChild : Child Nat := { measure := fun _ => ⟨2, 2⟩, render := fun _ => [{ text := ['h', 'i'], style := some 7, control := false }, nl] }
+def natOps : SOps Nat := { add := fun a b => a * 100 + b, null := 0 }
+
+/-- New finding, rich as found: inside `Panel("hi", style=5, padding=0)` the blanks after `hi` have style `None`
+(not the panel style): `render_lines` does not hand its `style` to `split_and_crop_lines`. -/
+theorem old_panel_content_pad_unstyled :
+    hiChild.linesAtS cw natOps { linesPadUnstyled := true } 4 (some 5) true
+      = [[{ text := ['h', 'i'], style := some 507, control := false }, { text := [' ', ' '], style := none, control := false }]] ∧
+    hiChild.linesAtS cw natOps { linesPadUnstyled := false } 4 (some 5) true
+      = [[{ text := ['h', 'i'], style := some 507, control := false }, { text := [' ', ' '], style := some 5, control := false }]] := by
+  decide
+
+/-- **align_style.**  The lines of `Align(child, …, style=st)`: the pads are segments of style `st`, the child's own
+lines (each brought to the common width with unstyled blanks) stand between them, and the whole line is then
+restyled by `apply_style(st)` (`st + segment style`; nothing happens for `st = None`). -/
+theorem align_style (A : SOps σ) (env : Env) (sv : SVariant) (o : AlignOpts) (style : Option σ) (c : Child σ) (w : Int) :
+    splitLines (alignConsoleS cw A env sv o style c w) = alignLinesS cw A env sv o style c w :=
+  alignConsoleS_lines cw cw_space cw_le_two A env sv o style c w
+
+/-- **vertical_center_rect.**  `VerticalCenter`: `⌊(height − n)/2⌋` blank lines, the child's `n` own lines
+(unpadded), the remaining blank lines; the blank lines are one segment of the requested style, as wide as the
+child's widest line. -/
+theorem vertical_center_lines (height : Int) (style : Option σ) (c : Child σ) (w : Int) :
+    splitLines (verticalCenterConsoleS cw height style c w) = verticalCenterLinesS cw height style c w ∧
+    ((c.linesAt cw w false).length ≤ height →
+      ((verticalCenterLinesS cw height style c w).length : Int) = height) := by
+  refine ⟨verticalCenterConsoleS_lines cw cw_space cw_le_two height style c w, ?_⟩
+  intro hle
+  simp only [verticalCenterLinesS, List.length_append, List.length_replicate]
+  omega
+
+/-! ### The two quirks of the first round, decided -/
+
+/-- Repaired `Panel` (title rendered at the width it was aligned to, `rstrip_end` counting cells): for a simple
+title the title part of the top border is exactly `cwid − 2` cells — the top border is as wide as the rest of
+the panel — at EVERY available width, wider than the console or not.  (`cwid` = child width, the panel is
+`cwid + 2` wide; `hsimple`: the aligned title stays in the simple domain, i.e. the fill character is simple.) -/
+theorem panel_title_own_width (v : Variant) (title : List Char) (a : AlignM) (t : TitleO σ) (st : σ)
+    (cwid : Int) (ch : Char) (hch : cw ch = 1) (h2 : 2 ≤ cwid) (hv : v.rstripCountsChars = false)
+    (ht : simpleTitle (σ := σ) cw v title a = some t)
+    (hsimple : ∀ t0, panelTitle title = some t0 → (textAlign cw t0 a (cwid - 2) ch).all simpleChar = true) :
+    ∃ ts, t.render st (cwid - 2) ch (max 1 (cwid - 2)) = some ts ∧ lineLength cw ts = (cwid - 2).toNat := by
+  unfold simpleTitle at ht
+  cases hT : panelTitle title with
+  | none => simp [hT] at ht
+  | some t0 =>
+    simp only [hT, Option.some.injEq] at ht
+    subst ht
+    simp only
+    have hlen := textAlign_cellLen cw cw_space cw_le_two t0 a (cwid - 2) ch hch (by omega)
+    have hcond : ((textAlign cw t0 a (cwid - 2) ch).all simpleChar &&
+        decide ((cellLen cw (textAlign cw t0 a (cwid - 2) ch) : Int) ≤ max 1 (cwid - 2))) = true := by
+      rw [hsimple t0 hT, hlen]; simp; omega
+    cases hx : textConsoleSimple (σ := σ) cw v (textAlign cw t0 a (cwid - 2) ch) [] (max 1 (cwid - 2)) with
+    | none =>
+      unfold textConsoleSimple at hx
+      rw [if_pos hcond] at hx
+      cases hx
+    | some ts0 =>
+      refine ⟨_, rfl, ?_⟩
+      have h1 := textConsoleSimple_of_fits cw v _ _ ts0 hx (by intro h; rw [hv] at h; cases h)
+      have hmap : ∀ l : List (Segment σ), lineLength cw (l.map (fun g => { g with style := some st })) = lineLength cw l := by
+        intro l
+        induction l with
+        | nil => rfl
+        | cons x xs ih => simp only [List.map_cons, lineLength_cons, ih]; rfl
+      rw [hmap, h1, hlen]
+
+/-- New finding, rich as found: a panel rendered with options wider than the console gets its title cropped to
+`console.width` — the title part is 10 cells where the border needs 26 (`Panel("x", title="a long title here")`
+on a 10-column console rendered at width 30). -/
+theorem old_panel_title_cropped_at_console_width :
+    ((simpleTitle (σ := Nat) cw {} "a long title here".toList .center).bind
+      (fun t => t.render 0 26 '─' 10)) = none ∧
+    ((simpleTitle (σ := Nat) cw { rstripCountsChars := false } "a long title here".toList .center).bind
+      (fun t => (t.render 0 26 '─' 26).map (lineLength cw))) = some 26 := by
+  decide +kernel
+
+/-- Repaired `Rule` without a title honours its `end` option; rich as found ignores it. -/
+theorem rule_no_title_end (env : Env) (bv : Variant) (l t : Bool) (o : RuleOpts) (w : Int) (h : o.title = []) :
+    (ruleTextS cw env { base := bv, linesPadUnstyled := l, titleAtConsoleWidth := t, ruleNoTitleEnd := false } o w).2 = o.endS ∧
+    (ruleTextS cw env { base := bv, linesPadUnstyled := l, titleAtConsoleWidth := t, ruleNoTitleEnd := true } o w).2 = ['\n'] := by
+  unfold ruleTextS ruleText
+  simp [h]
+
 /-! ## Rule -/
 
 /-- **rule_exact.**  For every title, `characters` (any length, wide characters included), alignment,
@@ -414,6 +574,37 @@ example : (ruleConsole (σ := Nat) cw { consoleWidth := 7 } {} { characters := [
   decide +kernel
 
 /-! ## Bar and ProgressBar -/
+
+/-- **bar_begin_end_spec.**  Which cells of a `Bar` are blank, partial and full, as a function of `begin`, `end`,
+`size` (exact rationals) and the width: with `lo = ⌊8·width·begin/size⌋`, `hi = ⌊8·width·end/size⌋` eighths
+(`0 ≤ lo ≤ hi ≤ 8·width`): `lo / 8` blanks, the right-aligned partial block `BEGIN[lo % 8]` if `lo % 8 ≠ 0`, full
+blocks up to cell `hi / 8`, the left-aligned partial block `END[hi % 8]` if `hi % 8 ≠ 0` and that cell is not
+already the begin block's, blanks up to `width`. -/
+theorem bar_begin_end_spec (o : BarOpts) (w : Int)
+    (hsd : 0 < o.size.den) (hbd : 0 < o.beginV.den) (hed : 0 < o.endV.den)
+    (hb0 : 0 ≤ o.beginV.num) (hes : o.endV.le o.size = true) (hlt : o.endV.le o.beginV = false)
+    (hw : 0 ≤ barWidth o.width w) :
+    let width := barWidth o.width w
+    let lo := (width * 8 * o.beginV.num * o.size.den) / (o.beginV.den * o.size.num)
+    let hi := (width * 8 * o.endV.num * o.size.den) / (o.endV.den * o.size.num)
+    let px : List Char := if lo % 8 != 0 then [beginBlocks.getD (lo % 8).toNat ' '] else []
+    let ex : List Char := if hi % 8 != 0 then [endBlocks.getD (hi % 8).toNat ' '] else []
+    0 ≤ lo ∧ lo ≤ hi ∧ hi ≤ width * 8 ∧
+    barConsole (σ := σ) o w =
+      [seg (List.replicate (lo / 8).toNat ' ' ++ px
+            ++ (List.replicate ((hi / 8).toNat - ((lo / 8).toNat + px.length)) '█'
+                ++ (if (lo / 8).toNat + px.length ≤ (hi / 8).toNat then ex else []))
+            ++ List.replicate (width.toNat - ((hi / 8).toNat + ex.length)) ' '), nl] :=
+  barConsole_spec o w hsd hbd hed hb0 hes hlt hw
+
+/-- an empty range (`end ≤ begin`) is all blanks -/
+theorem bar_empty_range (o : BarOpts) (w : Int) (h : o.endV.le o.beginV = true) :
+    barConsole (σ := σ) o w = [seg (rep (barWidth o.width w) ' '), nl] := by
+  unfold barConsole; simp [h]
+
+example : barConsole (σ := Nat) (barInit { size := ⟨10, 1⟩, beginV := ⟨3, 1⟩, endV := ⟨7, 1⟩, width := some 5 }) 20
+    = [seg ['\x20', '▐', '█', '▌', '\x20'], nl] := by decide
+
 
 /-- **bar_exact.**  `Bar` (as `__init__` leaves it: `begin ≥ 0`, `end ≤ size`) draws one segment of
 exactly `width` cells, for every size, begin, end (exact rationals) and width. -/
@@ -550,6 +741,26 @@ example : (match columnsLayout { columnsZeroCount := false } { width := some 0, 
     | .ok (some L) => L == ⟨4, [[some 0, some 1, none, none]]⟩ | _ => false) = true := by decide
 example : (match columnsLayout {} { columnFirst := true } [1, 1, 1, 1, 1] 5 with
     | .ok (some L) => L == ⟨3, [[some 0, some 2, some 4], [some 1, some 3, none]]⟩ | _ => false) = true := by decide
+
+/-- **columns_rendered_cells.**  `Columns` down to the characters (composition layer `Model/Layout.lean`, inner
+`Table.grid` = `Model/Table.lean`): what is rendered is the grid table whose cell at row `r`, column `j` is the
+oracle of the item the layout puts there — `itemOrder` read row by row, blanks last — wrapped in `Constrain` /
+`Align` as `equal` / `align` ask, or the blank text.  Together with C07's `rows_in_order` and
+`fold_cells_in_column` (every cell's own lines appear verbatim inside its column's span of its row) this is:
+every item is RENDERED exactly once, at the documented grid position. -/
+theorem columns_rendered_cells (cfg : Layout.Cfg) (o : Layout.ColsOpts) (opts : Layout.Opts) (items : List (Child Nat)) (w : Nat)
+    (p : PadDims) (lay : ColumnsLayout) (hp : unpackPad o.lay.padding = .ok p)
+    (hlay : columnsLayout cfg.v o.lay (items.map (fun c => (c.measureAt (w : Int)).maximum)) (w : Int) = .ok (some lay)) :
+    Layout.columnsConsole cfg o opts items w = Layout.tableConsole cfg (o.grid p) opts (Layout.colsGrid cfg o items w lay) w ∧
+    (Layout.colsGrid cfg o items w lay).length = lay.columnCount ∧
+    (∀ j r, j < lay.columnCount → r < lay.rows.length →
+      ∃ col, (Layout.colsGrid cfg o items w lay)[j]? = some col ∧ col.cells.length = lay.rows.length ∧
+        col.cells[r]? = some (Layout.colsCell cfg o items w ((lay.rows.getD r []).getD j none))) ∧
+    (lay.rows.flatten.filterMap id).Perm (List.range items.length) := by
+  refine ⟨Layout.columnsConsole_eq_grid cfg o opts items w p lay hp hlay, Layout.colsGrid_length cfg o items w lay,
+    fun j r hj hr => Layout.colsGrid_cell cfg o items w lay j r hj hr, ?_⟩
+  have := columnsLayout_items_perm cfg.v o.lay _ _ lay hlay
+  simpa using this
 
 /-! ## Tree -/
 
